@@ -21,7 +21,9 @@ import (
 // Case is the replayable unit: one grammar and one input (all start positions
 // and the warm/cold history are re-run on replay).
 type Case struct {
-	Placement int    `json:"placement,omitempty"` // impl.Placement under which the case was run
+	Placement int    `json:"placement,omitempty"`                  // impl.Placement under which the case was run
+	Prior     int    `json:"memoize_calls_before_build,omitempty"` // impl.MemoCount when the grammar was built (replay burns up to it)
+	Burn      int    `json:"burn_indexes,omitempty"`               // throw-away Memoize calls made before the last shared sub-parser was built
 	Grammar   string `json:"grammar"`
 	Input     string `json:"input"`
 	Note      string `json:"note,omitempty"`
@@ -104,6 +106,24 @@ func boundsOf(specs []spaceSpec, seeds []Case) map[string]any {
 
 // seed corpus: the properties' own examples and the smallest counterexamples
 // ever found; always run first, by every tier.
+// farIndexGrammars have two memoized parsers that meet at the same positions; they are built with the second one's
+// cache index 2^k away from the first one's (k = 8..17): whatever width the cache gives a parser index, two live
+// parsers must never share an entry. All of them have finitely many parses on every input.
+var farIndexGrammars = []string{
+	"S0!=a; S1!=b; root=(seq (any S0 S1) (any S0 S1))",
+	"S0!=(opt b); S1!=a; root=(seq S0 (many S1))",
+	"S0!=(any a (seq a b)); S1!=(choice b a); root=(any (seq S0 S1) (seq S1 S0))",
+	"N0=(any (seq N0 a) S0 a); S0!=(opt b); root=(seq N0 S0)",
+}
+
+func farIndexBurns() []int {
+	var out []int
+	for k := 8; k <= 17; k++ {
+		out = append(out, 1<<uint(k)-1)
+	}
+	return out
+}
+
 var seedCorpus = []Case{
 	{Grammar: "N0=(any (seq N0 b) a)", Input: "abbb", Note: "P -> P b | a (main_test.go)"},
 	{Grammar: "N0=(seq (any N0 a (opt N0)) b)", Input: "abbb", Note: "P -> (P | a | P?) b (C01 statement)"},
@@ -125,6 +145,7 @@ func parseCase(raw json.RawMessage) (Case, *gram.Grammar, error) {
 	}
 	g, err := gram.Parse(c.Grammar)
 	impl.Placement = c.Placement
+	impl.BurnTo(c.Prior) // reproduce the cache indexes the grammar had when the case was found
 	return c, g, err
 }
 
